@@ -14,7 +14,7 @@ walk all 65536 values in each receiver context (batch prefix, see mode_for()).
 import struct
 import zlib
 
-from sim.core import short
+from sim.core import SetupViolation, short
 from sim.ref_ws import DeflateCodec, SenderMonitor, encode_frame, judge_stream
 from worlds.ws import WsWorld, ws_classes
 
@@ -119,11 +119,9 @@ class World(WsWorld):
         e.t.flush(None)
         self.check_escapes()
         if e.p._st != 3:
-            from sim.core import HarnessError
-            raise HarnessError("canned handshake did not open the connection: %r" % (e.events,))
+            raise SetupViolation("valid-handshake-did-not-open-the-connection", repr(e.events)[:200])
         if cfg["deflate"] and e.p._perMessageCompress is None:
-            from sim.core import HarnessError
-            raise HarnessError("compression not negotiated by canned handshake")
+            raise SetupViolation("compression-not-negotiated-by-valid-handshake", "")
         self.comp = zlib.compressobj(zlib.Z_DEFAULT_COMPRESSION, zlib.DEFLATED, -15) if cfg["deflate"] else None
         if sweep:
             self.gen_sweep(self.mode[2], cfg["inside"])
@@ -174,8 +172,7 @@ class World(WsWorld):
         self.fw.loop_drain(self)
         t.flush(None)
         if n.p._st != 3:
-            from sim.core import HarnessError
-            raise HarnessError("neighbour connection did not open")
+            raise SetupViolation("valid-handshake-did-not-open-the-connection", "neighbour connection")
         self.eps.append(n)
         self.pipes.append((p2e, n))
         self.neighbour = n
